@@ -503,7 +503,7 @@ def ob_solve_gmsh(kind, law, renumber=False, physics="elastic"):
     return Verdict(DISCHARGED, backend="native float run (run-time contract, 1e-9)", detail=str(rec))
 
 
-def ob_beam_patch(dim, timo, et, inclined, nL=4):
+def ob_beam_patch(dim, timo, et, inclined, nL=4, remap=False):
     """beam patch test: constant axial strain a and constant curvature vector kappa (bending and, in 3-D, torsion rate), zero shear:
     theta(s) = theta0 + kappa s,  u(s) = u0 + a s t + (theta0 s + kappa s^2 / 2) x t,   prescribed at the two ends."""
     import contextlib, io
@@ -523,6 +523,22 @@ def ob_beam_patch(dim, timo, et, inclined, nL=4):
         beam = Models.Beam.Isotropic(dim, line, sect, E, v=0.3)
         mesh = Mesher().Mesh_Beams([beam], elemType=ElemType[et])
         simu = Simulations.Beam(mesh, beam, useTimoshenko=timo)
+        if remap:
+            # the SAME simulation and mesh, used once where they were built (whatever is memoised is memoised), then mapped by x -> 2.5 x + shift through the
+            # coordinate setter (element lengths change) and used again for the patch test
+            mesh = simu.mesh
+            c0 = np.asarray(mesh.coord)
+            s0 = c0 @ (p2 / np.linalg.norm(p2))
+            e0 = np.array([int(np.argmin(s0)), int(np.argmax(s0))])
+            unk0 = simu.Get_unknowns()
+            simu.add_dirichlet(e0[:1], [0.0] * len(unk0), unk0)
+            simu.add_dirichlet(e0[1:], [1e-3], [unk0[0]])
+            simu.Solve()
+            simu.Bc_Init()
+            mesh.length
+            mesh.coord = 2.5 * c0
+            p2 = 2.5 * p2
+    mesh = simu.mesh if remap else mesh
     co = np.asarray(mesh.coord)
     t = p2 / np.linalg.norm(p2)
     s = co @ t
@@ -647,6 +663,11 @@ def build(tier, seed):
                                   ("EasyFEA/Simulations/_beam.py::Beam.Construct_local_matrix_system", "EasyFEA/FEM/Elems/_beam.py::_Timoshenko.Get_beam_B_e_pg" if timo else "EasyFEA/FEM/Elems/_beam.py::_Euler_Bernoulli.Get_beam_B_e_pg"),
                                   bound="one 4-element beam, one random state (axial strain, curvature vector, rigid part), floats",
                                   clause="constant axial strain / curvature prescribed at the ends is returned at every interior node; ux', curvatures, N are the constants, shear forces vanish", timeout=300))
+    for dim, timo, et, inclined in ((2, False, "SEG2", False), (2, False, "SEG3", True), (3, False, "SEG2", True), (2, True, "SEG2", True), (3, True, "SEG3", False)):
+        obs.append(Ob(f"C01.beam.{dim}d.{'timoshenko' if timo else 'bernoulli'}.{et}{'.inclined' if inclined else ''}.remapped", ob_beam_patch, (dim, timo, et, inclined, 4, True), "X",
+                      ("EasyFEA/Simulations/_beam.py::Beam.Construct_local_matrix_system", "EasyFEA/FEM/_group_elem.py::_GroupElem.length_e", "EasyFEA/FEM/_group_elem.py::_GroupElem.coord[setter]"),
+                      bound="one 4-element beam solved once, then mapped by x -> 2.5 x through the coordinate setter and patch-tested", timeout=300,
+                      clause="the beam patch test holds on a mesh that was used before and then affinely mapped in place (nothing computed on the old geometry survives)"))
     obs.append(Ob("C01.solve.large.TRI3.elastic", ob_solve_large, (), "X", ("EasyFEA/Simulations/_simu.py::_Simu.Assembly", "EasyFEA/Simulations/_simu.py::_Simu.Solve"),
                   bound="one structured 154x154-node TRI3 mesh (47432 dofs > 46340), one linear field, floats",
                   clause="interior residual of the linear field vanishes and Solve() reproduces it on a system with more than 2^31 matrix positions", timeout=600))
